@@ -129,26 +129,101 @@ Proof. unfold chars, str. apply list_ascii_of_string_of_list_ascii. Qed.
 Lemma str_chars s : str (chars s) = s.
 Proof. unfold chars, str. apply string_of_list_ascii_of_string. Qed.
 
+Lemma chars_app a b : chars (a ++ b)%string = chars a ++ chars b.
+Proof. unfold chars. induction a as [|c a IH]; cbn; [reflexivity | rewrite IH; reflexivity]. Qed.
+
+Lemma escape_chars_app a b : escape_chars (a ++ b) = escape_chars a ++ escape_chars b.
+Proof.
+  induction a as [|c a IH]; [reflexivity|]. cbn [app escape_chars]. destruct (needs_escape c); rewrite IH; reflexivity.
+Qed.
+
+Lemma tilde_needs_escape : needs_escape tilde = true.
+Proof. reflexivity. Qed.
+
+(* what is not a tilde at the end stays as it is *)
+Lemma ref_tail_last cs c : Ascii.eqb c tilde = false -> ref_tail (cs ++ [c]) = cs ++ [c].
+Proof.
+  intros Hc. unfold ref_tail. rewrite rev_app_distr. cbn [rev app]. destruct (rev cs) as [|b r]; [reflexivity|].
+  rewrite Hc. reflexivity.
+Qed.
+
+(* on an escaped text the replacement happens exactly when the text ends in a tilde, and it replaces that tilde *)
+Lemma ref_tail_spec core :
+  ref_tail (escape_chars core) = escape_chars core \/
+  exists core', core = core' ++ [tilde] /\ ref_tail (escape_chars core) = escape_chars core' ++ tilde_ref.
+Proof.
+  induction core as [|c0 pre _] using rev_ind; [left; reflexivity|].
+  rewrite escape_chars_app. cbn [escape_chars].
+  destruct (Ascii.eqb c0 tilde) eqn:Et.
+  - apply Ascii.eqb_eq in Et. subst c0. right. exists pre. split; [reflexivity|].
+    rewrite tilde_needs_escape. unfold ref_tail. rewrite rev_app_distr. cbn [rev app].
+    rewrite Ascii.eqb_refl. cbn [andb]. rewrite rev_involutive. reflexivity.
+  - left. destruct (needs_escape c0).
+    + change [bslash; c0] with ([bslash] ++ [c0]). rewrite app_assoc. apply ref_tail_last. exact Et.
+    + apply ref_tail_last. exact Et.
+Qed.
+
+Definition emph_ok (o : wopts) : Prop := o_emph o = "*" \/ o_emph o = "_".
+
 (* a run that is not code and not blank is written as: its leading blanks, opening markers, its core with the
    metacharacters escaped, the closing markers, its trailing blanks - and leading blanks, core and trailing blanks are
-   the run's text *)
+   the run's text.  One exception to "escaped": the final tilde of a struck-through run is written as the character
+   reference &#126; (the reader does not take ~~ for a marker behind a tilde) *)
 Theorem format_run_keeps_text o r :
-  w_code r = false -> all_space (chars (w_text r)) = false ->
-  exists lead core trail opening closing,
-    format_run o r = (str lead ++ opening ++ str (escape_chars core) ++ closing ++ str trail)%string /\
-    lead ++ core ++ trail = chars (w_text r) /\ unescape_chars (escape_chars core) = core.
+  emph_ok o -> w_code r = false -> all_space (chars (w_text r)) = false ->
+  exists lead core trail opening closing enc,
+    format_run o r = (str lead ++ opening ++ str enc ++ closing ++ str trail)%string /\
+    lead ++ core ++ trail = chars (w_text r) /\ unescape_chars (escape_chars core) = core /\
+    (enc = escape_chars core \/
+     (w_strike r = true /\ exists core', core = core' ++ [tilde] /\ enc = escape_chars core' ++ tilde_ref)).
 Proof.
-  intros Hc Hs. unfold format_run. destruct (chars (w_text r)) as [|c0 cs0] eqn:E; [discriminate Hs|].
+  intros Ho Hc Hs. unfold format_run. destruct (chars (w_text r)) as [|c0 cs0] eqn:E; [discriminate Hs|].
   rewrite Hc, Hs. set (cs := c0 :: cs0) in *.
-  exists (take_while is_space cs), (trim_with is_space cs), (rev (take_while is_space (rev cs))).
   assert (existsb (fun c => negb (is_space c)) cs = true) as Hn.
   { clear - Hs. unfold all_space in Hs. induction cs as [|c r IH]; [discriminate Hs|]. cbn [forallb] in Hs. cbn [existsb].
     destruct (is_space c); [apply IH; exact Hs | reflexivity]. }
-  exists ((if w_strike r then "~~" else "") ++ (if w_bold r then (if w_italic r then "***" else "**") else if w_italic r then o_emph o else ""))%string.
-  exists ((if w_bold r then (if w_italic r then "***" else "**") else if w_italic r then o_emph o else "") ++ (if w_strike r then "~~" else ""))%string.
-  split; [|split; [apply trim_decompose; exact Hn | apply unescape_escape]].
-  destruct (w_bold r), (w_italic r), (w_strike r); repeat rewrite sapp_assoc; cbn [append]; repeat rewrite sapp_assoc; rewrite ?sapp_nil_r; reflexivity.
+  set (core := trim_with is_space cs).
+  set (mk := (if w_bold r then (if w_italic r then "***" else "**") else if w_italic r then o_emph o else "")%string).
+  assert (forall x, (if w_bold r then (if w_italic r then "***" ++ x ++ "***" else "**" ++ x ++ "**")
+                     else if w_italic r then o_emph o ++ x ++ o_emph o else x)%string = (mk ++ x ++ mk)%string) as Hwrap.
+  { intros x. unfold mk. destruct (w_bold r), (w_italic r); cbn [append]; rewrite ?sapp_nil_r; reflexivity. }
+  rewrite Hwrap.
+  destruct (w_strike r) eqn:Est.
+  - (* struck through *)
+    destruct (string_dec mk "") as [Hm|Hm].
+    + (* no other marker: the escaped core itself is what the reference rule looks at *)
+      rewrite Hm. cbn [append]. rewrite sapp_nil_r, chars_str.
+      destruct (ref_tail_spec core) as [Hsame|[core' [Hcore Href]]].
+      * exists (take_while is_space cs), core, (rev (take_while is_space (rev cs))), "~~", "~~", (escape_chars core).
+        split; [rewrite Hsame; repeat rewrite sapp_assoc; reflexivity|].
+        split; [apply trim_decompose; exact Hn|]. split; [apply unescape_escape|]. left. reflexivity.
+      * exists (take_while is_space cs), core, (rev (take_while is_space (rev cs))), "~~", "~~", (escape_chars core' ++ tilde_ref).
+        split; [rewrite Href; repeat rewrite sapp_assoc; reflexivity|].
+        split; [apply trim_decompose; exact Hn|]. split; [apply unescape_escape|]. right. split; [reflexivity|].
+        exists core'. split; [exact Hcore | reflexivity].
+    + (* inside bold or italic markers: the last character is the marker's, nothing is replaced *)
+      assert (exists m c, chars mk = m ++ [c] /\ Ascii.eqb c tilde = false) as [m [c [Hmk Hct]]].
+      { unfold mk in *. destruct (w_bold r), (w_italic r).
+        - exists (chars "**"), "*"%char. split; reflexivity.
+        - exists (chars "*"), "*"%char. split; reflexivity.
+        - destruct Ho as [Ho|Ho]; rewrite Ho; [exists [], "*"%char | exists [], "_"%char]; split; reflexivity.
+        - exfalso. apply Hm. reflexivity. }
+      assert (str (ref_tail (chars (mk ++ str (escape_chars core) ++ mk)%string)) = (mk ++ str (escape_chars core) ++ mk)%string) as Hkeep.
+      { assert (chars (mk ++ str (escape_chars core) ++ mk)%string = (chars (mk ++ str (escape_chars core))%string ++ m) ++ [c]) as Hsplit.
+        { rewrite <- app_assoc, <- Hmk, <- chars_app, sapp_assoc. reflexivity. }
+        rewrite Hsplit, ref_tail_last by exact Hct. rewrite <- Hsplit. apply str_chars. }
+      rewrite Hkeep.
+      exists (take_while is_space cs), core, (rev (take_while is_space (rev cs))), ("~~" ++ mk)%string, (mk ++ "~~")%string, (escape_chars core).
+      split; [repeat rewrite sapp_assoc; reflexivity|].
+      split; [apply trim_decompose; exact Hn|]. split; [apply unescape_escape|]. left. reflexivity.
+  - exists (take_while is_space cs), core, (rev (take_while is_space (rev cs))), mk, mk, (escape_chars core).
+    split; [repeat rewrite sapp_assoc; reflexivity|].
+    split; [apply trim_decompose; exact Hn|]. split; [apply unescape_escape|]. left. reflexivity.
 Qed.
+
+(* the repaired case: a struck-through run ending in a tilde *)
+Example strike_tilde : format_run (mkWOpts true false "-" "*" false 80) (mkWRun "a~" false false true false) = "~~a&#126;~~".
+Proof. reflexivity. Qed.
 
 (* the worked example of the property: every kind of block, metacharacters, blanks at run ends, a code span with a
    backtick, a list followed by a paragraph *)
